@@ -62,7 +62,7 @@ def gen_cases(rng, tier):
                 v = ["l", [rng.choice(WORDS) for _ in range(rng.choice([0, 1, 1, 2, 3]))]]
             else:
                 v = ["t", [rng.choice(WORDS) for _ in range(rng.choice([0, 1, 2]))]]
-            ops.append([k, v, rng.random() < 0.5])
+            ops.append([k, v, rng.choice(["feature", "attrs", "attrs", "setdefault", "setdefault", "update", "ctor"])])
         cases.append({"k": "ops", "ops": ops, "absent": rng.choice(["nope", "id"])})
     for i in range(n):
         m, used = [], set()
@@ -103,7 +103,8 @@ def gen_cases(rng, tier):
 def valid_case(c):
     try:
         if c["k"] == "ops":
-            return all(isinstance(k, str) and v[0] in ("s", "l", "t") for k, v, _ in c["ops"]) and bool(c["ops"])
+            return all(isinstance(k, str) and v[0] in ("s", "l", "t") and via in (True, False, "feature", "attrs", "setdefault", "update", "ctor")
+                       for k, v, via in c["ops"]) and bool(c["ops"])
         if c["k"] == "json":
             ks = [k for k, _ in c["m"]]
             return len(set(ks)) == len(ks)
@@ -185,12 +186,21 @@ def run_impl(c):
     from gffutils.feature import Feature
     if c["k"] == "ops":
         f = Feature()
-        for k, v, via_feature in c["ops"]:
+        for k, v, via in c["ops"]:
             val = v[1] if v[0] == "s" else (list(v[1]) if v[0] == "l" else tuple(v[1]))
-            if via_feature:
+            if via is True or via == "feature":
                 f[k] = val
-            else:
+            elif via is False or via == "attrs":
                 f.attributes[k] = val
+            elif via == "setdefault":
+                f.attributes.setdefault(k, val)
+            elif via == "update":
+                f.attributes.update({k: val})
+            elif via == "ctor":
+                old = list(f.attributes._d.items())
+                f.attributes = Attributes(old + [(k, val)])
+            else:
+                raise ValueError(via)
         reads = []
         keys = []
         for k, _, _ in c["ops"]:
@@ -259,7 +269,8 @@ def coq_fd(f, D):
 
 def coq_case(c, o):
     if c["k"] == "ops":
-        ops = L.lst(["(%s, %s)" % (L.s(k), coq_pv(v)) for k, v, _ in c["ops"]], "(str * pyval)")
+        ops = L.lst(["(%s, (%s, %s))" % (L.b(via == "setdefault"), L.s(k), coq_pv(v)) for k, v, via in c["ops"]],
+                    "(bool * (str * pyval))")
         reads = L.lst(["(Rd %s %s %s)" % (L.s(k), L.res(a, coq_pv), L.res(b, coq_pv)) for k, a, b in o["reads"]], "read")
         kinds = L.lst(["(%s, %s)" % (L.s(k), "(SList %s)" % L.ss(v[1]) if v[0] == "l" else "(STuple %s)" % L.ss(v[1])) for k, v in o["kinds"]],
                       "(str * stored)")
